@@ -1,6 +1,7 @@
 """C11 - Image iteration matches frame-by-frame rendering and leaks nothing."""
 from .render_data import *
 from .render_iterm2 import *
+from .image_iterator import *
 
 TRUSTED = ["typestate model of byte streams / PIL images: open() and io.BytesIO() create a stream, `with` / close() closes it; PIL.Image.frombytes creates an image",
            "CPython releases objects that are no longer referenced (exceptional exits only)"]
